@@ -167,6 +167,10 @@ pub fn resp_encode(f: &RFrame, out: &mut Vec<u8>) {
     }
 }
 
+/// The implementation refuses arrays nested deeper than this (fix 02d272a); the reference agrees so
+/// that "accepted by the implementation => accepted by the reference" stays meaningful.
+pub const MAX_NESTED_ARRAYS: usize = 32;
+
 #[derive(Clone, Debug, PartialEq, Eq)]
 pub enum RErr {
     Incomplete,
@@ -275,6 +279,10 @@ pub fn resp_decode(b: &[u8], p: usize) -> Result<(RFrame, usize), RErr> {
                 }
                 let n = usize::try_from(v).map_err(|_| RErr::Bad)?;
                 p = q;
+                // mirrors the implementation's nesting limit (arrays at depth 0..31)
+                if stack.len() >= MAX_NESTED_ARRAYS {
+                    return Err(RErr::Bad);
+                }
                 if n == 0 {
                     done = Some(RFrame::Array(vec![]));
                 } else {
